@@ -211,5 +211,5 @@ def space(tier):
         if p["repeat"]:
             p["bodies"] = p["bodies"][:6]
         return p
-    sp.add("random", 2400 if tier == "quick" else 40_000, f_rand)
+    sp.add("random", 2400 if tier == "quick" else 400_000, f_rand)
     return sp
